@@ -954,7 +954,7 @@ func c17RunExpName(ctx *Ctx, c c17ExpNameCase) {
 
 func TestC17(t *testing.T) {
 	r := newRec("C17",
-		"evaluate-option cases: lists of 0..4 EnvVariable options (+ optionally OverrideTime) over {System value, element, resource, collection, empty collection, nested collection, duplicate name, predefined name context/ucum, unsupported Go int/string/struct/nil, unsupported value nested one and two levels inside collections, generated collection shapes (1..5 items per level, ≤ 3 levels, supported and unsupported items at any position)} in drawn order, with a program that references one of the variables at the root, inside select/where criteria, inside a custom-function argument, or %context/%ucum/%nope; instrumented custom functions count invocations and record input and arguments; an enumeration stage covers all orders of all lists of length ≤ 2 (quick) / ≤ 3 (thorough) over 12 option kinds.  compile-option cases: four well-typed functions plus 0..4 of {good 0/1/2-ary, proto-typed, wrong first parameter, wrong results, non-function, no parameters, variadic, built-in name, duplicate name} in rotated order × 15 call shapes (right/wrong argument types and counts, call sites at the root, in select, in where) × {returns collection, returns wrapped sentinel error, returns empty}.  non-trivial = ≥ 2 options with an invalid one among valid ones, or a variable referenced below the root, or a custom function call; distinct = FNV-64 of (options, program).  Nested-call cases: generated call trees (depth ≤ 4) over three pure custom functions of 1, 2 and 3 Integer parameters, at the root or once per item inside select(), evaluated twice: the result must equal the harness-side evaluation of the same tree.  Unknown-variable cases: %nope placed in every context that must evaluate it (either side of every operator, receiver and each argument of every implemented table function with well-typed other operands, criteria over a non-empty receiver, the taken iif branch), alone and nested 2..3 deep: Evaluate must return an error; the same programs with the variable supplied are control runs; counters unknown_variable_context_discriminates / _fails_anyway say in how many contexts an empty value in the hole evaluates without error (only there can a swallowed error be told apart)",
+		"both spellings of each option are used alternately (compopts.AddFunction / fhirpath.WithFunction, evalopts.EnvVariable / fhirpath.WithConstant); element variables range over every message of the R4 datatypes file; with a failing compile option the error must be the one the same options give with the source `1`, also when the source does not parse or a call site has the wrong argument count.  evaluate-option cases: lists of 0..4 EnvVariable options (+ optionally OverrideTime) over {System value, element, resource, collection, empty collection, nested collection, duplicate name, predefined name context/ucum, unsupported Go int/string/struct/nil, unsupported value nested one and two levels inside collections, generated collection shapes (1..5 items per level, ≤ 3 levels, supported and unsupported items at any position)} in drawn order, with a program that references one of the variables at the root, inside select/where criteria, inside a custom-function argument, or %context/%ucum/%nope; instrumented custom functions count invocations and record input and arguments; an enumeration stage covers all orders of all lists of length ≤ 2 (quick) / ≤ 3 (thorough) over 12 option kinds.  compile-option cases: four well-typed functions plus 0..4 of {good 0/1/2-ary, proto-typed, wrong first parameter, wrong results, non-function, no parameters, variadic, built-in name, duplicate name} in rotated order × 15 call shapes (right/wrong argument types and counts, call sites at the root, in select, in where) × {returns collection, returns wrapped sentinel error, returns empty}.  non-trivial = ≥ 2 options with an invalid one among valid ones, or a variable referenced below the root, or a custom function call; distinct = FNV-64 of (options, program).  Nested-call cases: generated call trees (depth ≤ 4) over three pure custom functions of 1, 2 and 3 Integer parameters, at the root or once per item inside select(), evaluated twice: the result must equal the harness-side evaluation of the same tree.  Unknown-variable cases: %nope placed in every context that must evaluate it (either side of every operator, receiver and each argument of every implemented table function with well-typed other operands, criteria over a non-empty receiver, the taken iif branch), alone and nested 2..3 deep: Evaluate must return an error; the same programs with the variable supplied are control runs; counters unknown_variable_context_discriminates / _fails_anyway say in how many contexts an empty value in the hole evaluates without error (only there can a swallowed error be told apart)",
 		"nested collections as variable values and variadic functions are executed for totality only (the statement does not define them)")
 	runProperty(t, r,
 		Stage[c17EvalCase]{Name: "option-orders", Enum: c17EnumEval, Run: c17RunEval},
